@@ -601,16 +601,27 @@ func init() {
 	}
 	// subscribers on another node: two of them on the same node, plus a local one
 	// (the two-subscriber case also decides C12's "an event sent to a process on a connected node is received exactly once")
-	for _, nsub := range []int{1, 2, 3, 12} {
+	// (21, 22: the producer's node maps the event's name to another one on this connection - route.AtomMapping - so the
+	// subscribers know the event as 'evB')
+	for _, nsub := range []int{1, 2, 3, 12, 21, 22} {
 		nsub := nsub
 		prop := "C18"
 		if nsub == 12 {
 			nsub, prop = 2, "C12"
 		}
-		harn.Register(harn.Scenario{Property: prop, Name: fmt.Sprintf("remote-%d-subscribers", nsub), Run: func(c *harn.Ctx) *harn.Result {
-			return harn.Explore(c, harn.Sched{QuickBound: 1, ThoroughBound: 2, Preempt: false, Cache: true, HorizonS: 30, Body: netBody(netOpts{}, func(nw *NetWorld) {
+		scName := fmt.Sprintf("remote-%d-subscribers", nsub)
+		remoteName := gen.Atom("ev")
+		var mapping map[gen.Atom]gen.Atom
+		if nsub > 20 {
+			nsub -= 20
+			scName = fmt.Sprintf("remote-%d-subscribers-mapped-name", nsub)
+			remoteName = "evB"
+			mapping = map[gen.Atom]gen.Atom{"ev": "evB"}
+		}
+		harn.Register(harn.Scenario{Property: prop, Name: scName, Run: func(c *harn.Ctx) *harn.Result {
+			return harn.Explore(c, harn.Sched{QuickBound: 1, ThoroughBound: 2, Preempt: false, Cache: true, HorizonS: 30, Body: netBody(netOpts{atomMapA: mapping}, func(nw *NetWorld) {
 				ea := newEvWorld(nw.a)
-				eb := &evWorld{w: nw.b, ev: gen.Event{Name: "ev", Node: nw.a.n.Name()}, got: map[string][]string{}, ends: map[string][]string{}}
+				eb := &evWorld{w: nw.b, ev: gen.Event{Name: remoteName, Node: nw.a.n.Name()}, got: map[string][]string{}, ends: map[string][]string{}}
 				ea.producer("P")
 				ea.consumer("L")
 				names := []string{"R1", "R2", "R3"}[:nsub]
@@ -662,7 +673,22 @@ func init() {
 							nw.ex.Fail("publication-count", "remote subscriber %s (one of %d on its node) handled %s, published %s", nm, nsub, got, want)
 						}
 					}
-					nw.Out("L=%v R1=%v", ea.got["L"], eb.got["R1"])
+					// the end of the event: unregistered (odd number of remote subscribers) or its owner killed (even):
+					// one notification for every subscriber, local or remote
+					if nsub%2 == 1 {
+						nw.a.Do("P", func(p *probe) error { return p.UnregisterEvent("ev") })
+					} else {
+						nw.a.Setup("kill-owner", func() { nw.a.n.Kill(nw.a.pids["P"]) })
+					}
+					if n := len(ea.ends["L"]); n != 1 {
+						nw.ex.Fail("event-end-notification", "the event ended; its local subscriber got %d notifications %v", n, ea.ends["L"])
+					}
+					for _, nm := range names {
+						if n := len(eb.ends[nm]); n != 1 {
+							nw.ex.Fail("event-end-notification", "the event ended (as %q on the subscribers' node); remote subscriber %s got %d notifications %v", remoteName, nm, n, eb.ends[nm])
+						}
+					}
+					nw.Out("L=%v R1=%v ends=%v/%v", ea.got["L"], eb.got["R1"], ea.ends["L"], eb.ends["R1"])
 				}
 			})})
 		}})
@@ -685,6 +711,53 @@ func init() {
 					w.ex.Fail("publish-without-token", "a publication with the zero token was accepted while the event was being registered")
 				}
 				w.Out("err=%v", err)
+			}
+		})})
+	}})
+	// register || register of one name by two processes: one of them owns the event, only its token publishes,
+	// and when the loser terminates the winner's event and its subscriber are untouched
+	harn.Register(harn.Scenario{Property: "C18", Name: "race-register-register", Run: func(c *harn.Ctx) *harn.Result {
+		return harn.Explore(c, harn.Sched{QuickBound: 2, ThoroughBound: 3, Preempt: true, Cache: true, Body: nodeBody(func(w *World) {
+			e := newEvWorld(w)
+			e.producer("P1")
+			e.producer("P2")
+			e.consumer("C1")
+			tokens := map[string]gen.Ref{}
+			errs := map[string]error{}
+			for _, name := range []string{"P1", "P2"} {
+				name := name
+				w.ex.Thread("REG-"+name, func() {
+					w.n.Send(w.pids[name], doMsg{func(p *probe) error {
+						tokens[name], errs[name] = p.RegisterEvent("ev", gen.EventOptions{})
+						return nil
+					}})
+				})
+			}
+			w.Check = func() {
+				var winners []string
+				for _, name := range []string{"P1", "P2"} {
+					if errs[name] == nil {
+						winners = append(winners, name)
+					}
+				}
+				w.Out("winners=%v errs=%v", winners, errs)
+				if len(winners) != 1 {
+					w.ex.Fail("event-owner-count", "two processes registered the event 'ev' at the same moment: %d of them succeeded (%v)", len(winners), errs)
+					return
+				}
+				win := winners[0]
+				lose := map[string]string{"P1": "P2", "P2": "P1"}[win]
+				var subErr, pubErr error
+				w.Do("C1", func(p *probe) error { _, subErr = p.LinkEvent(e.ev); return nil })
+				// the loser goes away: nothing of the winner's event may go with it
+				w.Setup("kill-loser", func() { w.n.Kill(w.pids[lose]) })
+				w.Do(win, func(p *probe) error { pubErr = p.SendEvent("ev", tokens[win], "e1"); return nil })
+				if subErr != nil || pubErr != nil {
+					w.ex.Fail("publish-result", "the owner %s of the event (the other registration failed with %v): subscription returned %v, its publication %v", win, errs[lose], subErr, pubErr)
+				}
+				if fmt.Sprint(e.got["C1"]) != "[e1]" || len(e.ends["C1"]) != 0 {
+					w.ex.Fail("publication-count", "after the failed registrant %s terminated, the subscriber of %s's event handled %v and was told %v (expected [e1] and nothing)", lose, win, e.got["C1"], e.ends["C1"])
+				}
 			}
 		})})
 	}})
